@@ -356,6 +356,7 @@ def msl_work(ctx_like, tools, exe_ir, mslrun, workers, quick):
     batch.run()
     T["interpreters"] = round(time.time() - t0, 1)
     T["ir_runs"], T["msl_runs"] = len(batch.ir_reqs), len(batch.msl_reqs)
+    batch.ir_reqs, batch.msl_reqs, batch._ir_memo = [], [], {}      # (only the results travel back to the parent process)
     return {"batch": batch, "idx": idx, "ops": ops, "zi": zi, "T": T}
 
 
